@@ -16,6 +16,7 @@ macro_rules! h {
         #[kani::unwind(4)]
         #[kani::stub(std::alloc::alloc, alloc_stub)]
         #[kani::stub(alloc::alloc::dealloc_nonnull, dealloc_stub)]
+        #[kani::stub(std::thread::panicking, panicking_stub)]
         fn $name() {
             crate::ghost::arm();
             $body;
